@@ -25,6 +25,7 @@
 from __future__ import unicode_literals, with_statement
 
 import re
+from copy import copy
 
 import pybtex.io
 from pybtex.errors import report_error
@@ -34,7 +35,8 @@ from pybtex.exceptions import PybtexError
 class AuxDataError(PybtexError):
     def __init__(self, message, context=None):
         super(AuxDataError, self).__init__(message, context.filename)
-        self.context = context
+        # remember where the error happened: the parser keeps updating its context object
+        self.context = copy(context)
 
     def get_context(self):
         if self.context.line:
